@@ -241,24 +241,52 @@ class Gen:
         nrows = r.randint(0, 4)
         big = r.random() < 0.04
         if big:
-            nrows = r.choice([4097, 4100, 5000])      # beyond any plausible sniffing window
+            nrows = r.choice([4097, 5000, 16385, 20000, 65537])      # beyond any plausible sniffing window
             ncols = 1
         header = r.random() < 0.8
         rows = [[r.choice(["a", "b", "c", "a b", ""]) for _ in range(ncols)]] if header else []
         colpool = [r.sample(cells, r.randint(1, 4)) for _ in range(ncols)]
+        repeat = None
         if big:
             lead = r.choice(["1", "2.5", "abc"])
-            rows += [[lead]] * (nrows - 3)
+            repeat = [len(rows), [lead], nrows - 3]
             nrows = 3
         for _ in range(nrows):
             k = ncols if r.random() < 0.8 else r.randint(1, ncols)      # short records are padded
             rows.append([r.choice(colpool[j]) for j in range(k)])
-        return {"op": "csv", "out": self.new_h(), "rows": rows, "header": header}
+        rec = {"op": "csv", "out": self.new_h(), "rows": rows, "header": header}
+        if repeat:
+            rec["repeat"] = repeat
+        return rec
 
     def g_vnew(self, world, infos):
         r = self.rng
         d = None if r.random() < 0.3 else V.pick_value(r, self.kind(), 0.0)
         return {"op": "vnew", "out": self.new_h(), "default": V.enc(d), "n": r.choice([0, 1, 2, 3]), "typesafe": r.random() < 0.5}
+
+    def g_input_vlist(self, world, infos):
+        r = self.rng
+        n = self.rand_len()
+        k = r.randint(1, 3)
+        return {"op": "input_vlist", "inp": self.new_inp(),
+                "cols": [[V.enc(self.rand_name()), V.enc_list(self.vals_of(self.kind(), n))] for _ in range(k)]}
+
+    def g_tab_of_input(self, world, infos):
+        S = serif()
+        names = [k for k in sorted(world.inputs) if isinstance(world.inputs[k], list) and world.inputs[k]
+                 and all(isinstance(x, S.Vector) for x in world.inputs[k])]
+        if not names:
+            return None
+        rec = {"op": "tab_of_input", "out": self.new_h(), "inp": self.rng.choice(names), "how": self.rng.choice(["Table", "Table", "Vector"])}
+        self.touch(rec["out"])
+        return rec
+
+    def g_irshift(self, world, infos):
+        rec = self.g_rshift(world, infos)
+        if rec is None or rec.get("refl"):
+            return None
+        rec["op"] = "irshift"
+        return rec
 
     def g_drop_input(self, world, infos):
         if not world.inputs:
@@ -442,6 +470,22 @@ class Gen:
         self.touch(c.name)
         return rec
 
+    def g_rowseal(self, world, infos):
+        r = self.rng
+        c = self.pick([i for i in infos if i.is_table and not i.weird and i.ncols > 0 and i.n > 0])
+        if not c or len(world.sealed) >= 3:
+            return None
+        i = r.randrange(c.n)
+        self._sealed_n = getattr(self, "_sealed_n", 0) + 1
+        rec = {"op": "rowseal", "h": c.name, "i": i if r.random() < 0.8 else i - c.n, "name": "r%d" % self._sealed_n}
+        self.touch(c.name)
+        return rec
+
+    def g_rowopen(self, world, infos):
+        if not world.sealed:
+            return None
+        return {"op": "rowopen", "name": self.rng.choice(sorted(world.sealed)), "how": self.rng.choice(["iter", "iter", "index", "slice"])}
+
     def g_tsel(self, world, infos):
         r = self.rng
         c = self.pick([i for i in infos if i.is_table and not i.weird and i.ncols > 0])
@@ -623,7 +667,7 @@ class Gen:
         c = self.pick([i for i in infos if not i.weird and not i.is_table])
         if not c:
             return None
-        to = self.rng.choice(["int", "float", "str", "bool", "complex", "object"])
+        to = self.rng.choice(["int", "float", "str", "bool", "complex", "object", "date", "datetime", "fn_lookup", "fn_half"])
         rec = {"op": "cast", "out": self.new_h(), "h": c.name, "to": to}
         self.touch(rec["out"], c.name)
         return rec
@@ -658,7 +702,7 @@ class Gen:
 
     def g_method(self, world, infos):
         r = self.rng
-        c = self.pick([i for i in infos if not i.weird and not i.is_table and i.kind in ("str", "date", "int", "float", "datetime")])
+        c = self.pick([i for i in infos if not i.weird and not i.is_table and i.kind in ("str", "date", "int", "float", "datetime", "bool")])
         if not c:
             return None
         if c.kind == "str":
@@ -668,7 +712,9 @@ class Gen:
             name, args, prop = r.choice([("year", [], True), ("month", [], True), ("isoformat", [], False),
                                         ("weekday", [], False), ("eomonth", [], False)])
         elif c.kind == "int":
-            name, args, prop = r.choice([("bit_length", [], False), ("real", [], True)])
+            name, args, prop = r.choice([("bit_length", [], False), ("real", [], True), ("bit_lshift", [2], False), ("bit_rshift", [1], False)])
+        elif c.kind == "bool":
+            name, args, prop = r.choice([("bit_lshift", [3], False), ("bit_rshift", [1], False), ("real", [], True)])
         else:
             name, args, prop = r.choice([("is_integer", [], False), ("real", [], True)])
         rec = {"op": "method", "out": self.new_h(), "h": c.name, "name": name, "args": V.enc_list(args)}
@@ -818,6 +864,8 @@ class Gen:
             cls = "incompat"
         elif t < pn + pw + pi + 0.08 and kd in V.NARROWER:
             cls = "narrower"
+        elif kd in V.SUB_OF_KIND and self.k.get("p_subclass", 0.0) and r.random() < self.k["p_subclass"]:
+            cls = "subclass"
         vals = [V.pick_value(r, kd, self.k.get("rare", 0.02)) for _ in range(m)]
         if m:
             p = r.randrange(m)
@@ -829,6 +877,10 @@ class Gen:
                 vals[p] = V.pick_value(r, r.choice(V.INCOMPAT.get(kd, ["str"])), 0.0)
             elif cls == "narrower":
                 vals[p] = V.pick_value(r, r.choice(V.NARROWER[kd]), 0.0)
+            elif cls == "subclass":
+                # an instance of a strict subclass of the column's own kind (IntEnum member, str subclass):
+                # whether it is accepted is not stated; that the assignment is all-or-nothing is
+                vals[p] = V.SUB_OF_KIND[kd](V.pick_value(r, kd, 0.0))
             # "promote early, fail late": a second special value at another position
             if m >= 2 and cls in ("wider", "none") and r.random() < self.k.get("p_second_special", 0.3):
                 q = r.choice([i for i in range(m) if i != p])
@@ -868,6 +920,10 @@ class Gen:
         if c.n == 0 and r.random() < 0.7:
             return None
         key, pos = self.rand_key(c.n)
+        if c.kind == "bool" and c.n and not c.nullable and r.random() < 0.12:
+            key, pos = {"k": "h", "h": c.name}, [i for i, b in enumerate(c.vals) if b]       # flags[flags] = ...
+        elif c.kind == "int" and c.n and not c.nullable and r.random() < 0.06 and all(type(x) is int and -c.n <= x < c.n for x in c.vals):
+            key, pos = {"k": "h", "h": c.name}, [x % c.n for x in c.vals]                     # perm[perm] = ...
         m = len(pos)
         vals, cls = self.write_values(c.kind, m, c.nullable)
         scalar_ok = True
@@ -897,7 +953,9 @@ class Gen:
         # natural invalidities
         if self.chance("p_natural", 0.0):
             t = r.random()
-            if t < 0.35 and key["k"] in ("int", "intlist", "inttuple", "intvec"):
+            if key["k"] == "h":
+                pass
+            elif t < 0.35 and key["k"] in ("int", "intlist", "inttuple", "intvec"):
                 bad = r.choice([c.n, c.n + 1, -c.n - 1])
                 if key["k"] == "int":
                     key["i"] = bad
@@ -914,6 +972,9 @@ class Gen:
                 key["v"].append(True)
                 rec["nat"] = "masklen"
         self.faulty(rec, spec, m)
+        if "fault" not in rec and spec["k"] in ("list", "tuple") and m >= 1 and self.chance("p_reenter", 0.0):
+            spec["k"] = r.choice(["fseq", "flist", "ftuple"])
+            rec["reenter"] = r.randint(0, 2 * m + 2)
         self.touch(c.name)
         return rec
 
